@@ -424,7 +424,7 @@ Definition lk_log (i : N) : log :=
 Definition lk_ls : list log := [lk_log 1; lk_log 2].
 Definition lk_n : fname := name_of lk_info.
 Definition lk_env : env :=
-  {| e_acts := []; e_disk := apply_act empty_disk (ACreate lk_n 256); e_fault := None; e_m := zero_metrics |}.
+  {| e_acts := []; e_disk := apply_act empty_disk (ACreate lk_n 256); e_fault := None; e_fx := fx_none; e_m := zero_metrics |}.
 
 (* the guards are satisfiable *)
 Example Link_ex_guards :
